@@ -222,6 +222,56 @@ Definition dealer_on_time (L : list item) : Prop :=
   (forall L1 b z L2, L = L1 ++ IB d (MAnswer (AVal b z)) :: L2 -> ansF cf d (annot L1) (Z.to_nat b) = None) /\
   (forall L1 cb L2, L = L1 ++ IB d (MComplaint cb) :: L2 -> (ph L1 < 2)%nat).
 
+(* an executable criterion for [dealer_on_time] *)
+Fixpoint all_splits (L : list item) : list (list item * item * list item) :=
+  match L with
+  | [] => []
+  | x :: L' => ([], x, L') :: map (fun s => let '(a, y, b) := s in (x :: a, y, b)) (all_splits L')
+  end.
+
+Lemma all_splits_complete : forall L L1 x L2, L = L1 ++ x :: L2 -> In (L1, x, L2) (all_splits L).
+Proof.
+  induction L as [|y L IH]; intros L1 x L2 E; [destruct L1; discriminate E|].
+  destruct L1 as [|z L1]; cbn in E; inversion E; subst; cbn [all_splits].
+  - left. reflexivity.
+  - right. apply in_map_iff. exists (L1, x, L2). split; [reflexivity|]. apply IH. reflexivity.
+Qed.
+
+Definition is_noneb {X} (o : option X) : bool := match o with None => true | Some _ => false end.
+
+Definition on_time_split (s : list item * item * list item) : bool :=
+  let '(L1, x, _) := s in
+  match x with
+  | IP o m => if Nat.eqb o d then
+                Nat.eqb (ph L1) 0 && is_noneb (shF d (annot L1)) &&
+                match m with MShare (SVal z) => readable z | _ => false end
+              else true
+  | IB o (MVec _) => if Nat.eqb o d then Nat.eqb (ph L1) 0 && is_noneb (vecF d (annot L1)) else true
+  | IB o (MAnswer (AVal b _)) => if Nat.eqb o d then is_noneb (ansF cf d (annot L1) (Z.to_nat b)) else true
+  | IB o (MComplaint _) => if Nat.eqb o d then Nat.ltb (ph L1) 2 else true
+  | _ => true
+  end.
+
+Lemma dealer_on_time_check L : forallb on_time_split (all_splits L) = true -> dealer_on_time L.
+Proof.
+  intro H. rewrite forallb_forall in H.
+  assert (Hs : forall L1 x L2, L = L1 ++ x :: L2 -> on_time_split (L1, x, L2) = true)
+    by (intros; apply H; apply all_splits_complete; assumption).
+  unfold dealer_on_time. split; [|split; [|split]].
+  - intros L1 m L2 E. specialize (Hs _ _ _ E). cbn in Hs. rewrite Nat.eqb_refl in Hs.
+    apply andb_prop in Hs as [Hs H3]. apply andb_prop in Hs as [H1 H2]. apply Nat.eqb_eq in H1.
+    split; [exact H1|]. split; [destruct (shF d (annot L1)); [discriminate H2|reflexivity]|].
+    destruct m as [|sb|vb|cb|ab|tg]; try discriminate H3. destruct sb as [|z]; [discriminate H3|].
+    cbn. rewrite H3. discriminate.
+  - intros L1 vb L2 E. specialize (Hs _ _ _ E). cbn in Hs. rewrite Nat.eqb_refl in Hs.
+    apply andb_prop in Hs as [H1 H2]. apply Nat.eqb_eq in H1.
+    split; [exact H1|destruct (vecF d (annot L1)); [discriminate H2|reflexivity]].
+  - intros L1 b z L2 E. specialize (Hs _ _ _ E). cbn in Hs. rewrite Nat.eqb_refl in Hs.
+    destruct (ansF cf d (annot L1) (Z.to_nat b)); [discriminate Hs|reflexivity].
+  - intros L1 cb L2 E. specialize (Hs _ _ _ E). cbn in Hs. rewrite Nat.eqb_refl in Hs.
+    apply Nat.ltb_lt. exact Hs.
+Qed.
+
 Theorem honest_dealer_never_flagged L :
   Phi cf d (annot L) = false -> ownc cf d (annot L) = false -> dealer_on_time L ->
   ~ In (EvFlag d) (irun_events cf d q_init L).
@@ -280,6 +330,58 @@ Proof.
   - apply no_disq_event. pose proof (qual_refines_factset cf d Hp Hd Hpd L) as [_ R2].
     destruct (q_disq (irun cf d q_init L)); [rewrite (R2 eq_refl) in HP; discriminate HP|reflexivity].
   - apply honest_dealer_never_flagged; auto. apply (hd_ownc a (annot L) HL).
+Qed.
+
+(* ---------------- the own complaint is broadcast exactly when it is registered ---------------- *)
+Definition emits_complaint (L : list item) : Prop := In (cmp d) (irun_events cf d q_init L).
+
+Lemma ownc_nil : ownc cf d (annot []) = false.
+Proof. reflexivity. Qed.
+
+Lemma ownc_flip : forall L, ownc cf d (annot L) = true ->
+  exists L1 x L2, L = L1 ++ x :: L2 /\ ownc cf d (annot L1) = false /\ ownc cf d (annot (L1 ++ [x])) = true.
+Proof.
+  intro L. rewrite <- (rev_involutive L). induction (rev L) as [|x K IH]; cbn [rev]; intro H.
+  - rewrite ownc_nil in H. discriminate H.
+  - destruct (ownc cf d (annot (rev K))) eqn:E.
+    + destruct (IH eq_refl) as (L1 & y & L2 & EL & E1 & E2).
+      exists L1, y, (L2 ++ [x]). split; [rewrite EL, <- app_assoc; reflexivity|auto].
+    + exists (rev K), x, []. auto.
+Qed.
+
+(* as long as the participant does not disqualify the dealer, it broadcasts its complaint if
+   and only if [ownc] holds: the declarative own complaint of Model/DkgNet.v is the one the other
+   participants receive *)
+Theorem own_complaint_emitted_iff L :
+  Phi cf d (annot L) = false -> (emits_complaint L <-> ownc cf d (annot L) = true).
+Proof.
+  intro HP. unfold emits_complaint.
+  assert (Hclean : forall L1 L2, L = L1 ++ L2 -> q_disq (irun cf d q_init L1) = false /\ StateAbs cf d (annot L1) (irun cf d q_init L1)).
+  { intros L1 L2 EL. pose proof (qual_refines_factset cf d Hp Hd Hpd L1) as [R1 R2].
+    assert (P1 : Phi cf d (annot L1) = false).
+    { destruct (Phi cf d (annot L1)) eqn:E; [|reflexivity]. rewrite EL, (Phi_extends L2 L1 E) in HP. discriminate HP. }
+    assert (D1 : q_disq (irun cf d q_init L1) = false).
+    { destruct (q_disq (irun cf d q_init L1)); [rewrite (R2 eq_refl) in P1; discriminate P1|reflexivity]. }
+    split; [exact D1|apply R1; exact D1]. }
+  split.
+  - intro Hin. destruct (irun_events_split cf d L q_init _ Hin) as (L1 & x & L2 & EL & Hx).
+    apply istep_cmp_cause in Hx.
+    destruct (Hclean (L1 ++ [x]) L2) as [D2 S2]; [rewrite EL, <- app_assoc; reflexivity|].
+    assert (Eq' : irun cf d q_init (L1 ++ [x]) = fst (istep cf d (irun cf d q_init L1) x)).
+    { unfold irun. rewrite fold_left_app. reflexivity. }
+    rewrite <- Eq' in Hx. destruct Hx as [Hx|Hx]; [congruence|].
+    rewrite (own_recv_abs _ _ S2) in Hx.
+    rewrite EL. replace (L1 ++ x :: L2) with ((L1 ++ [x]) ++ L2) by (rewrite <- app_assoc; reflexivity).
+    apply ownc_extends. exact Hx.
+  - intro HO. destruct (ownc_flip L HO) as (L1 & x & L2 & EL & E1 & E2).
+    destruct (Hclean L1 (x :: L2) EL) as [D1 S1].
+    destruct (Hclean (L1 ++ [x]) L2) as [D2 S2]; [rewrite EL, <- app_assoc; reflexivity|].
+    assert (Eq' : irun cf d q_init (L1 ++ [x]) = fst (istep cf d (irun cf d q_init L1) x)).
+    { unfold irun. rewrite fold_left_app. reflexivity. }
+    rewrite Eq' in S2.
+    pose proof (istep_recv cf d (irun cf d q_init L1) x) as HR.
+    rewrite (own_recv_abs _ _ S1), (own_recv_abs _ _ S2) in HR. specialize (HR E1 E2).
+    rewrite EL, irun_events_app. apply in_or_app. right. cbn [irun_events]. apply in_or_app. left. exact HR.
 Qed.
 
 End Fair.
